@@ -73,7 +73,8 @@ def gen_enumerated(rng, outcomes, v2):
     for o in outcomes[:-1]:
         dps = [g.dp() for _ in range(rng.randint(1, 3))]
         steps.append({'dps': dps, 'by': dps[-1]['run'], 'gap': rng.choice([30, 31, 45, 600]),
-                      'script': list(POINT_SCRIPTS[o])})
+                      'script': list(POINT_SCRIPTS[o]),
+                      'during': [g.dp() for _ in range(rng.randint(1, 2))] if rng.random() < 0.3 else []})
     last = [g.dp() for _ in range(rng.randint(0 if steps else 1, 2))]
     steps.append({'dps': last, 'by': None, 'gap': 0, 'script': []})
     return {'v2': v2, 'n_runs': n_runs, 'prior': None, 'start': stamp(rng), 'load_gap': 0, 'load_script': ['ok'],
@@ -131,11 +132,13 @@ def gen_random(rng, rich=False, max_points=5):
             statuses = {'4xx': rng.choice([400, 401, 404, 422, 499]), '5xx': rng.choice([500, 502, 503, 599, 399, 301])}
         steps.append({'dps': dps, 'by': dps[-1]['run'] if dps else rng.randrange(n_runs),
                       'gap': rng.choice([0, 1, 29, 30, 30, 31, 60, 600]), 'script': gen_script(rng),
-                      'statuses': statuses})
+                      'statuses': statuses,
+                      'during': [g.dp(rich=rich) for _ in range(rng.randint(1, 3))] if rng.random() < 0.35 else []})
     steps.append({'dps': [g.dp(rich=rich) for _ in range(rng.choice([0, 1, 2]))], 'by': None, 'gap': 0, 'script': []})
     return {'v2': v2, 'n_runs': n_runs, 'prior': prior, 'start': stamp(rng),
             'load_gap': rng.choice([0, 0, 29, 30, 100]), 'load_script': gen_script(rng),
-            'steps': steps, 'close_script': gen_script(rng)}
+            'steps': steps, 'close_script': gen_script(rng),
+            'close_during': [g.dp(rich=rich)] if rng.random() < 0.1 else []}
 
 
 # ------------------------------------------------------------------ running one scenario on the real code
@@ -143,6 +146,21 @@ def dp_event(d):
     return {'k': 'persist', 'run': d['run'],
             'dp': {'in': d['in'], 'it': d['it'],
                    'ms': [{'c': c, 'u': u, 'v': lib.frac(v)} for (c, u, v) in d['ms']]}}
+
+
+def add_point_events(events, timeline, ev, point, fl):
+    """one transmission point; the data points another thread handed over while its request was in flight"""
+    if fl.error:
+        point['in_flight_error'] = fl.error
+    if fl.fired and not fl.blocked:
+        ev['during'] = [{'run': d['run'], 'dp': dp_event(d)['dp']} for d in fl.dps]
+    events.append(ev)
+    timeline.append(('point', point))
+    if fl.fired:
+        for d in fl.dps:
+            if fl.blocked:      # the persisting thread had to wait for the request to end: a plain persist afterwards
+                events.append(dp_event(d))
+            timeline.append(('dp', dict(d, in_flight=True)))
 
 
 def flat_of(d):
@@ -189,42 +207,58 @@ def execute(ck, sc, idx, server=None, refused_port=None):
             s = D.Session(wd, n_runs, data_file, url)
             t0 = int(w.clock)
             timeline = []   # what the oracle sees: ('dp', d) | ('point', record)
-            w.clock += sc['load_gap']
-            now = int(w.clock)
-            w.begin_point('load', sc['load_script'])
-            s.load()
-            w.end_point()
-            for d in (sc.get('prior') or {}).get('dps', []):
-                events.append(dp_event(d))
-                timeline.append(('dp', d))
-            events.append({'k': 'send', 'now': now, 'script': sc['load_script']})
-            timeline.append(('point', w.points[-1]))
-            for i, st in enumerate(sc['steps']):
-                for d in st['dps']:
-                    s.feed(d)
+            crash = None
+            try:
+                w.clock += sc['load_gap']
+                now = int(w.clock)
+                w.begin_point('load', sc['load_script'])
+                s.load()
+                w.end_point()
+                for d in (sc.get('prior') or {}).get('dps', []):
                     events.append(dp_event(d))
                     timeline.append(('dp', d))
-                if st['by'] is None:
-                    continue
-                w.clock += st['gap']
-                now = int(w.clock)
-                w.begin_point('step%d' % i, st['script'], st.get('statuses'))
-                s.completed(st['by'])
-                w.end_point()
-                events.append({'k': 'send', 'now': now, 'script': st['script']})
+                events.append({'k': 'send', 'now': now, 'script': sc['load_script']})
                 timeline.append(('point', w.points[-1]))
-            w.begin_point('close', sc['close_script'])
-            s.close()
-            w.end_point()
-            events.append({'k': 'close', 'script': sc['close_script']})
-            timeline.append(('point', w.points[-1]))
-            # probe: what is still held?  (a harness-only extra `close()` of the back end)
-            probe_script = ['refused'] * 6 if refused_port else ['ok']
-            w.begin_point('probe', probe_script)
-            s.db.close()
-            w.end_point()
-            events.append({'k': 'close', 'script': probe_script})
-            timeline.append(('point', w.points[-1]))
+                for i, st in enumerate(sc['steps']):
+                    for d in st['dps']:
+                        s.feed(d)
+                        events.append(dp_event(d))
+                        timeline.append(('dp', d))
+                    if st['by'] is None:
+                        continue
+                    w.clock += st['gap']
+                    now = int(w.clock)
+                    w.begin_point('step%d' % i, st['script'], st.get('statuses'))
+                    fl = D.InFlight(s, st.get('during') or [])
+                    if fl.dps:
+                        w.hook = fl
+                    s.completed(st['by'])
+                    w.end_point()
+                    fl.finish()
+                    add_point_events(events, timeline, {'k': 'send', 'now': now, 'script': st['script']}, w.points[-1], fl)
+                w.begin_point('close', sc['close_script'])
+                fl = D.InFlight(s, sc.get('close_during') or [])
+                if fl.dps:
+                    w.hook = fl
+                s.close()
+                w.end_point()
+                fl.finish()
+                add_point_events(events, timeline, {'k': 'close', 'script': sc['close_script']}, w.points[-1], fl)
+                # probe: what is still held?  (a harness-only extra `close()` of the back end)
+                probe_script = ['refused'] * 6 if refused_port else ['ok']
+                w.begin_point('probe', probe_script)
+                s.db.close()
+                w.end_point()
+                events.append({'k': 'close', 'script': probe_script})
+                timeline.append(('point', w.points[-1]))
+            except lib.InfraError:
+                raise
+            except Exception as e:  # noqa: the implementation raised in the middle of the session
+                import traceback
+                tb = traceback.extract_tb(e.__traceback__)
+                crash = {'exception': type(e).__name__, 'message': str(e)[:200],
+                         'raised_in': tb[-1].name, 'at': w.point['label'] if w.point else None}
+                w.end_point()
             runs = s.runs
             env_expected = json.dumps(w.env, sort_keys=True)
             src = dict(D.SOURCE)
@@ -237,8 +271,8 @@ def execute(ck, sc, idx, server=None, refused_port=None):
     start_expected = sc['prior']['start'] if sc.get('prior') and sc['prior']['dps'] else sc['start']
     op = {'op': 'c17.session', 'v2': sc['v2'], 't0': t0, 'start': start_expected, 'env': env_expected,
           'source': src_expected, 'events': events}
-    if os.environ.get('C17_MODEL_PINNED'):   # development aid: compare against the model of the pinned tree
-        op['pinned'] = True
+    if os.environ.get('C17_MODEL_VARIANT'):   # development aid: compare against the model of an earlier tree
+        op['variant'] = os.environ['C17_MODEL_VARIANT']
     # ---- canonical implementation observation
     reqs = []
     for kind, p in timeline:
@@ -255,7 +289,8 @@ def execute(ck, sc, idx, server=None, refused_port=None):
                      'urls': sorted(set(a['url'][len(url):] for a in p['attempts'])),
                      'method_ctype': sorted(set((a['method'], a['ctype']) for a in p['attempts']))})
     impl = {'reqs': reqs}
-    return impl, op, {'timeline': timeline, 'data_file': data_file, 'underrun': underrun,
+    impl['crash'] = crash
+    return impl, op, {'crash': crash, 'timeline': timeline, 'data_file': data_file, 'underrun': underrun,
                       'options_calls': options_calls, 'expected_start': start_expected}
 
 
@@ -295,13 +330,16 @@ def oracle(ck, sc, book, inp):
     def fail(clause, detail, **sig):
         ck.oracle_fail(clause, inp, detail, signature=dict({'clause': clause}, **sig))
 
+    before_close = None
     for kind, x in book['timeline']:
         if kind == 'dp':
             pending.append(x)
             fed_all.append(x)
             continue
         p = x
-        if not p['attempts']:
+        if p['label'] == 'close':
+            before_close = len(fed_all)      # what another thread hands over during the close itself comes later
+        if not p['attempts'] or 'decoded' not in p:
             continue
         dec = p['decoded']
         want = sorted([m for d in pending for m in flat_of(d)], key=repr)
@@ -310,8 +348,13 @@ def oracle(ck, sc, book, inp):
             missing = [m for m in want if m not in got]
             extra = [m for m in got if m not in want]
             lost_after_failure = [m for m in missing if any(m in flat_of(d) for d in failed_before)]
+            lost_in_flight = [m for m in missing if any(m in flat_of(d) for d in pending if d.get('in_flight'))]
             resent_acked = [m for m in extra if m in acked]
-            if lost_after_failure:
+            if lost_in_flight and not lost_after_failure:
+                fail('kept_while_in_flight', {'point': p['label'], 'n_missing': len(lost_in_flight),
+                                              'handed_over_while_a_request_was_in_flight_and_never_sent':
+                                              [repr(m) for m in lost_in_flight[:4]]}, api='v2' if sc['v2'] else 'v1')
+            elif lost_after_failure:
                 fail('kept_on_failure', {'point': p['label'], 'missing_from_next_request': [repr(m) for m in lost_after_failure[:4]],
                                          'n_missing': len(lost_after_failure)}, api='v2' if sc['v2'] else 'v1')
             elif resent_acked:
@@ -335,6 +378,10 @@ def oracle(ck, sc, book, inp):
             fail('payload_carries_env_source', {'payload_env': dec['env'], 'file_env': env,
                                                 'payload_source': dec['source'], 'file_source': src})
             n += 1
+        if p.get('in_flight_error'):
+            fail('kept_while_in_flight', {'point': p['label'], 'persisting_thread_raised': p['in_flight_error']},
+                 exception=p['in_flight_error'].split(':')[0])
+            n += 1
         if len(p['attempts']) > 5:
             fail('retry_bound', {'attempts': len(p['attempts'])})
             n += 1
@@ -351,9 +398,10 @@ def oracle(ck, sc, book, inp):
         if p['label'] == 'close':
             last_req_success = p['success']
     # final transmission succeeded -> every data point acknowledged exactly once
-    close_pt = [x for k, x in book['timeline'] if k == 'point' and x['label'] == 'close'][0]
+    close_pts = [x for k, x in book['timeline'] if k == 'point' and x['label'] == 'close']
+    close_pt = close_pts[0] if close_pts else {'attempts': []}       # no close when the session crashed before
     if (close_pt['attempts'] and close_pt['success']):
-        want_all = sorted([m for d in fed_all[:len(fed_all)] for m in flat_of(d)], key=repr)
+        want_all = sorted([m for d in fed_all[:before_close] for m in flat_of(d)], key=repr)
         if sorted(acked_upto_close(book), key=repr) != want_all:
             fail('final_ok_all_once', {'acked': len(acked_upto_close(book)), 'handed_over': len(want_all)})
             n += 1
@@ -399,10 +447,20 @@ def check_batch(ck, scenarios, server=None, refused_port=None, tag=''):
             ck.count('v2:null-padding')
         if sc.get('prior'):
             ck.count('reloaded-data')
+        n_fl = sum(1 for k, x in book['timeline'] if k == 'dp' and x.get('in_flight'))
+        if n_fl:
+            ck.count('data points handed over while a request is in flight', n_fl)
         ck.case(nontrivial_key=('s', json.dumps(sc, sort_keys=True)) if (had_failure_then_more or padded) else None,
                 sample={'v2': sc['v2'], 'points': [(x['label'], [a['kind'] for a in x['attempts']])
                                                    for k, x in book['timeline'] if k == 'point']})
         bad = oracle(ck, sc, book, inp)
+        if book['crash']:
+            ck.oracle_fail('transmission_no_traceback', inp, book['crash'],
+                           signature={'clause': 'transmission_no_traceback', 'exception': book['crash']['exception'],
+                                      'raised_in': book['crash']['raised_in']})
+            ck.disagree('c17.session: the implementation raised, the model does not', inp, book['crash'],
+                        {'reqs': len(m)}, THEOREMS_SESSION + THEOREMS_ENC)
+            continue
         if i_reqs != m:
             which = first_difference(i_reqs, m)
             theorems = THEOREMS_SESSION + (THEOREMS_RETRY if which in ('used', 'waits', 'success') else []) + \
